@@ -8,6 +8,7 @@ import (
 	"bytes"
 	"context"
 	"fmt"
+	"io"
 	"os"
 	"os/exec"
 	"path/filepath"
@@ -244,6 +245,9 @@ func run(seed int64, n int, dir string, _ []string) {
 			if g.Intn(3) == 0 {
 				role = 'R'
 			}
+			if it%3 == 2 && p == (it/3)%nproc && g.Intn(4) > 0 {
+				role = 'W' // the parked process of the sweep is mostly a writer (12 points; a reader has fewer)
+			}
 			roles[p] = string(role)
 			s.procs = append(s.procs, &vproc{role: role, grant: make(chan struct{})})
 		}
@@ -261,6 +265,11 @@ func run(seed int64, n int, dir string, _ []string) {
 				ctx := context.Background()
 				c := file.NewContainer()
 				wait := 150 * time.Millisecond
+				if it%3 != 0 {
+					// scheduled modes park processes for a long (wall-clock) time: a short timeout would end the
+					// waiting process before the interesting interleaving is reached
+					wait = 5 * time.Second
+				}
 				if vp.role == 'W' {
 					h, err := c.CreateHandlerForUpdate(ctx, path, wait, time.Millisecond)
 					if err != nil {
@@ -269,7 +278,8 @@ func run(seed int64, n int, dir string, _ []string) {
 					}
 					s.setHolding(pid, "W")
 					file.VerifPoint("hold")
-					b, _ := os.ReadFile(path)
+					// read through the handle opened when the lock was taken, as csvq's loader does
+					b, _ := io.ReadAll(h.File())
 					cnt, _ := strconv.Atoi(strings.TrimSpace(string(b)))
 					fp, _ := h.FileForUpdate()
 					_, _ = fp.WriteString(strconv.Itoa(cnt + 1))
@@ -327,6 +337,23 @@ func run(seed int64, n int, dir string, _ []string) {
 		}
 		collect(300*time.Millisecond, -1)
 		steps := 0
+		// scheduling: uniformly random in half of the runs; in the other half priority based with a few
+		// priority-change points (PCT), which lets one process run a long way while another is parked at a
+		// single point — the shape of an ordering defect (A released, B runs to the end, A publishes)
+		pct := it%3 == 1
+		// third mode, a systematic sweep: process `parkPid` runs exactly `parkAfter` steps and is parked there
+		// while all the others run (to their end, or for at most 250 steps); then it continues
+		park := it%3 == 2
+		parkPid, parkAfter, parkBudget := (it/3)%nproc, g.Intn(14), 250
+		stepsOf := make([]int, nproc)
+		prio := g.Perm(nproc)
+		changeAt := map[int]bool{}
+		if pct {
+			for k := g.Intn(3); k > 0; k-- {
+				changeAt[g.Intn(40)] = true
+			}
+		}
+		lowest := -1
 		for len(finished) < nproc && steps < 400 {
 			if len(waiting) == 0 {
 				collect(300*time.Millisecond, -1)
@@ -341,6 +368,43 @@ func run(seed int64, n int, dir string, _ []string) {
 				}
 			}
 			p := pids[g.Intn(len(pids))]
+			if park {
+				_, parkWaiting := waiting[parkPid]
+				switch {
+				case stepsOf[parkPid] < parkAfter && parkWaiting:
+					p = parkPid
+				case stepsOf[parkPid] >= parkAfter && parkBudget > 0:
+					others := pids[:0:0]
+					for _, q := range pids {
+						if q != parkPid {
+							others = append(others, q)
+						}
+					}
+					if len(others) > 0 {
+						p = others[g.Intn(len(others))]
+						parkBudget--
+					} else if len(finished)+1 < nproc {
+						// the others are running towards their next point: wait for them instead of releasing
+						collect(50*time.Millisecond, -1)
+						parkBudget--
+						continue
+					} else {
+						park = false
+					}
+				}
+			}
+			if pct {
+				for _, q := range pids {
+					if prio[q] > prio[p] {
+						p = q
+					}
+				}
+				if changeAt[steps] {
+					prio[p] = lowest
+					lowest--
+				}
+			}
+			stepsOf[p]++
 			name := waiting[p]
 			delete(waiting, p)
 			s.procs[p].grant <- struct{}{}
